@@ -30,9 +30,13 @@ Definition nkey_eqb (a b : nkey) : bool := (fst a =? fst b) && (snd a =? snd b).
    and the add-path capability tuples (AFI, SAFI, send/receive) in order of appearance *)
 Record open_info := mk_open { o_asn : N; o_bgpid : N; o_asn4 : list N; o_addpath : list (N * N * N) }.
 
+(* what AdjRIBIn.validatePath reads of an announced path: AS_PATH absent or without segments, all its
+   ASNs, ORIGINATOR_ID (0 when absent), CLUSTER_LIST *)
+Record pattrs := mk_pa { pa_empty : bool; pa_asns : list N; pa_originator : N; pa_clusters : list N }.
+
 (* one Adj-RIB-In call issued by the update processing *)
 Inductive uevent :=
-| UAnn (v6 : bool) (p : prefix) (id : N)
+| UAnn (v6 : bool) (p : prefix) (id : N) (a : pattrs)
 | UWdr (v6 : bool) (p : prefix) (id : N).
 
 Record cfg := mk_cfg { ignore_asns : list N; ignore_pre : bool; ignore_post : bool }.
@@ -40,6 +44,7 @@ Record cfg := mk_cfg { ignore_asns : list N; ignore_pre : bool; ignore_post : bo
 Record nbr := mk_nbr {
   n_vrf : N; n_addr : N; n_src : src; n_as : N; n_localas : N;
   n_ap4 : bool; n_ap6 : bool; n_asn4 : bool;
+  n_rid : N;                         (* session attribute RouterID: BGP identifier of the sent OPEN *)
   n_rib4 : list rkey; n_rib6 : list rkey }.
 
 Inductive oevent := OAdd (e : entry) | ORemove (e : entry) | OEndOfRIB | ODispose.
@@ -149,8 +154,8 @@ Definition key_of (n : nbr) : nkey := (n_vrf n, n_addr n).
 Definition rib_of (v6 : bool) (n : nbr) : list rkey := if v6 then n_rib6 n else n_rib4 n.
 Definition ap_of (v6 : bool) (n : nbr) : bool := if v6 then n_ap6 n else n_ap4 n.
 Definition set_rib (v6 : bool) (r : list rkey) (n : nbr) : nbr :=
-  if v6 then mk_nbr (n_vrf n) (n_addr n) (n_src n) (n_as n) (n_localas n) (n_ap4 n) (n_ap6 n) (n_asn4 n) (n_rib4 n) r
-  else mk_nbr (n_vrf n) (n_addr n) (n_src n) (n_as n) (n_localas n) (n_ap4 n) (n_ap6 n) (n_asn4 n) r (n_rib6 n).
+  if v6 then mk_nbr (n_vrf n) (n_addr n) (n_src n) (n_as n) (n_localas n) (n_ap4 n) (n_ap6 n) (n_asn4 n) (n_rid n) (n_rib4 n) r
+  else mk_nbr (n_vrf n) (n_addr n) (n_src n) (n_as n) (n_localas n) (n_ap4 n) (n_ap6 n) (n_asn4 n) (n_rid n) r (n_rib6 n).
 
 (* neighborManager.getNeighbor: first match *)
 Fixpoint find_nbr (k : nkey) (l : list nbr) : option nbr :=
@@ -194,12 +199,35 @@ Definition rib_op (n : nbr) (isann v6 : bool) (p : prefix) (id : N) (st : rstate
   let st2 := if isann then loc_add (n_vrf n) v6 (tag (n_src n) (p, id)) st1 else st1 in
   set_nbrs (put_nbr (set_rib v6 rib' n) (r_nbrs st2)) st2.
 
+(* The contributing ASNs / cluster ids of the VRF the Adj-RIB-In validates against. The VRFs of a BMP
+   router never have any: VRFRegistry.CreateVRFIfNotExists creates them without, bmpInit adds none
+   (unlike fsmAddressFamily.init of a real session), and the RemoveContributingASN of bmpDispose
+   finds nothing to remove (refcounter.Remove of an absent value does nothing). *)
+Definition bmp_contributing_asns : list N := [].
+Definition bmp_contributing_cluster_ids : list N := [].
+
+(* AdjRIBIn.validatePath <> HiddenReasonNone: eBGP without AS_PATH, one of our ASNs in the path, our
+   router id as ORIGINATOR_ID, one of our cluster ids in the CLUSTER_LIST. (The OTC check needs peer
+   roles, which a monitored peer's pseudo session never has enabled.) *)
+Definition hidden_path (ibgp : bool) (rid : N) (casns ccids : list N) (a : pattrs) : bool :=
+  (negb ibgp && pa_empty a) ||
+  existsb (fun x => existsb (N.eqb x) casns) (pa_asns a) ||
+  (pa_originator a =? rid) ||
+  existsb (fun x => existsb (N.eqb x) ccids) (pa_clusters a).
+
+Definition nbr_ibgp (n : nbr) : bool := n_localas n =? n_as n.
+
+(* A hidden path is stored in the Adj-RIB-In (replacing what an AddPath replaces) but no client is
+   told about it and it takes part in no later client update: for the part of the Adj-RIB-In the
+   clients see - which is what n_rib4 / n_rib6 hold - announcing it acts like a withdrawal. *)
 Definition apply_event (k : nkey) (ev : uevent) (st : rstate) : rstate :=
   match find_nbr k (r_nbrs st) with
   | None => st
   | Some n =>
     match ev with
-    | UAnn v6 p id => rib_op n true v6 p id st
+    | UAnn v6 p id a =>
+      let hid := hidden_path (nbr_ibgp n) (n_rid n) bmp_contributing_asns bmp_contributing_cluster_ids a in
+      rib_op n (negb hid) v6 p id st
     | UWdr v6 p id => rib_op n false v6 p id st
     end
   end.
@@ -296,7 +324,7 @@ Definition peer_up (h : pph) (sent rcvd : bytes) (st0 : rstate) : rstate :=
           let st1 := create_vrf (p_rd h) st in
           let n := mk_nbr (p_rd h) (p_addr h) s (p_as h) (asn_of_open so)
                      (addpath_rx so ro 1) (addpath_rx so ro 2)
-                     (negb (len (o_asn4 ro) =? 0)) [] [] in
+                     (negb (len (o_asn4 ro) =? 0)) (o_bgpid so) [] [] in
           match find_nbr (p_rd h, p_addr h) (r_nbrs st1) with
           | Some _ => st1                                   (* addNeighbor: exists *)
           | None => set_nbrs (r_nbrs st1 ++ [n]) st1
